@@ -75,6 +75,10 @@ func parseBase62(s string, into []byte) error {
 	if !ok {
 		return fmt.Errorf("cannot parse base62: %q", s)
 	}
+	if i.Sign() < 0 {
+		// SetString accepts a sign, Bytes() below is the magnitude only.
+		return fmt.Errorf("base62 value is negative: %q", s)
+	}
 	valBytes := i.Bytes()
 	if len(valBytes) > len(into) {
 		return fmt.Errorf("base62 value is too large: %d > %d", len(valBytes), len(into))
